@@ -8,8 +8,8 @@ from harness.gen import corpus, mutate, pyprog, xonshgen
 ALLOWED_ERR = {"err", "tokerr"}
 
 
-def check_one(src: str, mode: str = "exec", variant: str = "shipped"):
-    o = impl.parse(src, mode, variant=variant)
+def check_one(src: str, mode: str = "exec", variant: str = "shipped", py_version=None):
+    o = impl.parse(src, mode, variant=variant, py_version=tuple(py_version) if py_version else None)
     k = o["k"]
     if k == "tree":
         want = "Module" if mode == "exec" else "Expression"
@@ -102,6 +102,14 @@ def run(rep, tier, pool, variants=("shipped",)):
                 if o["k"] == "exc" and o.get("cls") != "RecursionError":
                     rep.violation(f"C03 {entry} under locale {env_name} raised {o.get('cls')}: {short(o.get('msg'), 60)} on {short(src, 50)}",
                                   {"property": "C03", "input": src, "entry_point": entry, "environment": dict(c12.ENVS)[env_name], "observed": o})
+    # the options: version-gated syntax (alone, embedded, damaged) under every py_version
+    gated = ["type X = int\n", "def f[T](a): pass\n", "class B[T]: pass\n", "try:\n    pass\nexcept* E:\n    pass\n", "x = 1\ntype Y[T] = T\ny = 2\n", "type X = \n", "def f[T(a): pass\n"]
+    vcases = [(s, "exec", "shipped", list(v)) for s in gated for v in [(3, 8), (3, 9), (3, 10), (3, 11), (3, 12), (3, 13), (3,), (4, 0)]]
+    for (src, mode, _v, pv), o in zip(vcases, pool.call("harness.props.c03:check_one", vcases, timeout=10)):
+        rep.case((src, mode, tuple(pv)), True)
+        rep.count("version:" + str(o.get("ok") or o.get("kind") or o.get("k")))
+        if not o.get("ok") and o.get("k") != "not-run":
+            rep.violation(f"C03 {o.get('kind') or o.get('k')} {o.get('cls')}: {short(o.get('msg'), 60)} on {short(src, 50)} with py_version={tuple(pv)}", {"property": "C03", "input": src, "mode": mode, "py_version": pv, "observed": o})
     for variant in variants:
         res = pool.call("harness.props.c03:check_one", [(s, m, variant) for _, s, m in cases], timeout=10)
         for (kind, src, mode), o in zip(cases, res):
